@@ -81,6 +81,7 @@ type translator struct {
 	dispErr   map[dispKey]error
 	curPkg    string
 	usedGen   map[string]map[string]bool
+	globalOK  map[*types.Var]bool
 	errEnum   bool // while translating a function that compares error values (err == io.EOF)
 }
 
@@ -299,6 +300,32 @@ func (t *translator) leanType(ty types.Type) (string, error) {
 		return "", fmt.Errorf("type %s of a package that is not translated", key)
 	case *types.Alias:
 		return t.leanType(types.Unalias(x))
+	case *types.Signature:
+		// a function value: only references to top-level functions are translated
+		var parts []string
+		for i := 0; i < x.Params().Len(); i++ {
+			p, err := t.leanType(x.Params().At(i).Type())
+			if err != nil {
+				return "", err
+			}
+			parts = append(parts, p)
+		}
+		var rs []string
+		for i := 0; i < x.Results().Len(); i++ {
+			if isErrorType(x.Results().At(i).Type()) {
+				continue
+			}
+			r, err := t.leanType(x.Results().At(i).Type())
+			if err != nil {
+				return "", err
+			}
+			rs = append(rs, r)
+		}
+		res := "Res (" + tupleType(rs) + ")"
+		if len(parts) == 0 {
+			return "(Unit → " + res + ")", nil
+		}
+		return "(" + strings.Join(parts, " → ") + " → " + res + ")", nil
 	case *types.Map:
 		k, err := t.leanType(x.Key())
 		if err != nil {
@@ -332,6 +359,8 @@ func (t *translator) zero(ty types.Type) (string, error) {
 		return "[]", nil
 	case *types.Map:
 		return "none", nil
+	case *types.Signature:
+		return "default", nil
 	case *types.Pointer:
 		if _, ok := x.Elem().Underlying().(*types.Basic); ok {
 			return "none", nil
